@@ -149,6 +149,79 @@ pub fn c07_rt(v: &View) -> Vec<Violation> {
     out
 }
 
+/// The part of C11 that is sound under true concurrency. An observation is made somewhere between
+/// the stamp of its OpBegin and the stamp of its Obs / OpEnd event; the harness-side handle count is
+/// a lower bound of the true one at every instant (a creation is stamped after, a drop before it
+/// happens).
+pub fn c11_rt(v: &View) -> Vec<Violation> {
+    let mut out = vec![];
+    for (_, p, what) in &v.anomalies {
+        if *p == "C11" {
+            out.push(viol("C11", "identity-mismatch", what.clone()));
+        }
+    }
+    for a in 0..v.actors.len() {
+        for b in (a + 1)..v.actors.len() {
+            if v.actors[a].spawned && v.actors[b].spawned && v.actors[a].id == v.actors[b].id {
+                out.push(viol("C11", "duplicate-id", format!("actors {a} and {b} share id {}", v.actors[a].id)));
+            }
+        }
+    }
+    let min_strong = |av: &ActorView, b: u64, e: u64| -> i32 {
+        let mut n = av.strong_at(b);
+        for (s, c) in &av.strong {
+            if *s >= b && *s <= e {
+                n = n.min(*c);
+            }
+        }
+        n
+    };
+    for e in v.evs {
+        let K::Obs { op, id, ty, alive, upgradable } = &e.k else { continue };
+        let Some(o) = v.op(*op) else { continue };
+        if o.a >= v.actors.len() {
+            continue;
+        }
+        let av = &v.actors[o.a];
+        if *id != av.id || *ty != av.ty {
+            out.push(viol("C11", "identity-mismatch", format!("a handle derived from actor {} ({}#{}) reports {}#{}", o.a, av.ty, av.id, ty, id)));
+        }
+        let p = e.seq;
+        match upgradable {
+            None => {
+                if av.end_begin_seq().map(|x| x > p).unwrap_or(true) && !*alive {
+                    out.push(viol("C11", "is-alive-false-on-live-actor", format!("is_alive() = false on actor {} at seq {p}, before it began to end", o.a)));
+                }
+                if av.joined_seq().map(|j| j < o.b_seq).unwrap_or(false) && *alive {
+                    out.push(viol("C11", "is-alive-true-on-dead-actor", format!("is_alive() = true on actor {}, probed after its JoinHandle resolved", o.a)));
+                }
+            }
+            Some(u) => {
+                let n = min_strong(av, o.b_seq, p);
+                if n > 0 && !*u {
+                    out.push(viol("C11", "upgrade-none-while-referenced", format!("upgrade() = None on actor {} at seq {p} while at least {n} strong handle(s) were held throughout", o.a)));
+                }
+            }
+        }
+    }
+    for o in v.ops.iter().filter(|o| o.kind == OpKind::Upgrade && o.a < v.actors.len()) {
+        let av = &v.actors[o.a];
+        let Some(e) = o.e_seq else { continue };
+        let n = min_strong(av, o.b_seq, e);
+        if matches!(o.res, Some(Res::None)) && n > 0 {
+            out.push(viol("C11", "upgrade-none-while-referenced", format!("upgrade() = None on actor {} (seq {}..{e}) while at least {n} strong handle(s) were held throughout", o.a, o.b_seq)));
+        }
+    }
+    for o in v.sends() {
+        if let Some(j) = v.actors[o.a].joined_seq() {
+            if o.b_seq > j && o.res.as_ref().map(|r| r.is_ok()).unwrap_or(false) {
+                out.push(viol("C11", "send-succeeds-on-dead-actor", format!("{:?} on ended actor {} returned {:?}", o.kind, o.a, o.res)));
+            }
+        }
+    }
+    out
+}
+
 pub fn c17_labels(v: &View, l: &mut Vec<&'static str>) {
     let blocking: Vec<&OpRec> = v.sends().filter(|o| o.send().unwrap().0.is_blocking() && matches!(o.src, Src::Client(_))).collect();
     for x in &blocking {
